@@ -50,6 +50,9 @@ fn main() {
     watchdog::start(ctx);
     let threads = std::env::var("VERIF_THREADS").ok().and_then(|s| s.parse().ok()).unwrap_or(16usize);
     rayon::ThreadPoolBuilder::new().num_threads(threads).stack_size(64 << 20).build_global().unwrap();
+    if let Ok(k) = std::env::var("VERIF_SELFTEST_CRASH") {
+        watchdog::selftest_crash(&k);
+    }
     let cov = match props::dispatch(ctx) {
         Some(c) => c,
         None => {
